@@ -267,6 +267,105 @@ static std::string RunVar(const std::vector<std::string>& ops) {
   return out;
 }
 
+// ---------------------------------------- Variant with trivially destructible siblings --
+// alternatives 0 (float) and 2 (int) are trivially destructible, 1 and 3 track their lifetime
+using VarM = nop::Variant<float, Tr<1>, int, Tr<3>>;
+
+struct VisitorM {
+  int calls = 0, index = -2, value = 0;
+  void operator()(const float& e) { calls++; index = 0; value = static_cast<int>(e); }
+  void operator()(const Tr<1>& e) { calls++; index = 1; value = e.v; }
+  void operator()(const int& e) { calls++; index = 2; value = e; }
+  void operator()(const Tr<3>& e) { calls++; index = 3; value = e.v; }
+  void operator()(nop::EmptyVariant) { calls++; index = -1; }
+};
+
+static std::string DumpVarM(Pool<VarM>& p) {
+  std::string s;
+  for (int i = 0; i < 3; i++) {
+    if (i) s += ";";
+    if (!p.alive[i]) { s += "X"; continue; }
+    VarM* v = p.at(i);
+    VisitorM vis;
+    v->Visit(vis);
+    int idx = v->index();
+    bool ok = vis.calls == 1 && vis.index == idx && v->empty() == (idx == -1) &&
+              (v->get<float>() != nullptr) == (idx == 0) && (v->get<Tr<1>>() != nullptr) == (idx == 1) &&
+              (v->get<int>() != nullptr) == (idx == 2) && (v->get<Tr<3>>() != nullptr) == (idx == 3) && idx >= -1 && idx <= 3;
+    if (!ok) { s += "INCONSISTENT"; continue; }
+    if (idx == -1) s += "E"; else s += "A" + std::to_string(idx) + ":" + std::to_string(vis.value);
+  }
+  return s;
+}
+
+// constructs / assigns alternative k from x; returns the number of harness temporaries of a tracked type it made
+static int VarMConstruct(void* mem, int k, int x, bool thr) {
+  switch (k) {
+    case 0: new (mem) VarM(static_cast<float>(x)); return 0;
+    case 1: { Tr<1> tmp(x); g_throw = thr; try { new (mem) VarM(tmp); } catch (...) { g_throw = false; throw; } g_throw = false; return 1; }
+    case 2: new (mem) VarM(x); return 0;
+    default: { Tr<3> tmp(x); g_throw = thr; try { new (mem) VarM(tmp); } catch (...) { g_throw = false; throw; } g_throw = false; return 1; }
+  }
+}
+static int VarMSet(VarM* v, int k, int x, bool thr) {
+  switch (k) {
+    case 0: *v = static_cast<float>(x); return 0;
+    case 1: { Tr<1> tmp(x); g_throw = thr; try { *v = tmp; } catch (...) {} g_throw = false; return 1; }
+    case 2: *v = x; return 0;
+    default: { Tr<3> tmp(x); g_throw = thr; try { *v = tmp; } catch (...) {} g_throw = false; return 1; }
+  }
+}
+
+static std::string RunVarM(const std::vector<std::string>& ops) {
+  auto p = std::make_unique<Pool<VarM>>();
+  std::string out;
+  Window w;
+  for (const auto& op : ops) {
+    char c = op[0];
+    std::vector<std::string> a = Split(op.substr(1), ':');
+    int i = std::stoi(a[0]);
+    int k = a.size() > 1 ? std::stoi(a[1]) : 0;
+    int x = a.size() > 2 ? std::stoi(a[2]) : 0;
+    bool thr = a.size() > 3 && a[3] == "1" && (k == 1 || k == 3);
+    bool done = true;
+    auto dead = [&](int q) { return q >= 0 && q < 3 && !p->alive[q]; };
+    auto live = [&](int q) { return q >= 0 && q < 3 && p->alive[q]; };
+    auto alt = [&](int q) { return q >= 0 && q < 4; };
+    switch (c) {
+      case 'N': if (dead(i)) { w.Open(); new (p->mem[i]) VarM(); w.Close(); p->alive[i] = true; } else done = false; break;
+      case 'V':
+        if (dead(i) && alt(k)) {
+          int tmp = (k == 1 || k == 3) ? 1 : 0;
+          w.Open();
+          try { VarMConstruct(p->mem[i], k, x, thr); p->alive[i] = true; } catch (...) {}
+          w.Close();
+          Window::ctor -= tmp; Window::dtor -= tmp;
+        } else done = false;
+        break;
+      case 'C': if (dead(i) && live(k)) { w.Open(); new (p->mem[i]) VarM(*p->at(k)); w.Close(); p->alive[i] = true; } else done = false; break;
+      case 'X': if (dead(i) && live(k)) { w.Open(); new (p->mem[i]) VarM(std::move(*p->at(k))); w.Close(); p->alive[i] = true; } else done = false; break;
+      case 'D': if (live(i)) { w.Open(); p->at(i)->~VarM(); w.Close(); p->alive[i] = false; } else done = false; break;
+      case 's':
+        if (live(i) && alt(k)) {
+          int tmp = (k == 1 || k == 3) ? 1 : 0;
+          w.Open(); VarMSet(p->at(i), k, x, thr); w.Close();
+          Window::ctor -= tmp; Window::dtor -= tmp;
+        } else done = false;
+        break;
+      case 'e': if (live(i)) { w.Open(); *p->at(i) = nop::EmptyVariant{}; w.Close(); } else done = false; break;
+      case 'a': if (live(i) && live(k)) { w.Open(); *p->at(i) = *p->at(k); w.Close(); } else done = false; break;
+      case 'm': if (live(i) && live(k)) { w.Open(); *p->at(i) = std::move(*p->at(k)); w.Close(); } else done = false; break;
+      case 'B': if (live(i)) { w.Open(); p->at(i)->Become(k); w.Close(); } else done = false; break;
+      default: done = false;
+    }
+    if (!out.empty()) out += " ";
+    out += (done ? "" : "skip ") + Head() + "|" + DumpVarM(*p);
+  }
+  for (int i = 0; i < 3; i++) if (p->alive[i]) { w.Open(); p->at(i)->~VarM(); w.Close(); }
+  out += " end=" + Head();
+  return out;
+}
+
 // -------------------------------------------------------------- UniqueHandle --
 static std::vector<long> g_closed, g_released;
 struct CountPolicy {
@@ -370,6 +469,7 @@ int main() {
       else if (tok[0] == "res") out = RunRes<nop::Result<Er, T0>, Er>(ops);
       else if (tok[0] == "sta") out = RunRes<nop::Status<T0>, nop::ErrorStatus>(ops);
       else if (tok[0] == "var") out = RunVar(ops);
+      else if (tok[0] == "varm") out = RunVarM(ops);
       else if (tok[0] == "uh") out = RunUh(ops);
       else if (tok[0] == "cmp") out = Cmp();
       else if (tok[0] == "msgs") out = Messages();
